@@ -146,3 +146,71 @@ pub fn elligator_preimages(ctx: &Ctx, target: &crate::model::Pt, rng: &mut impl 
     out.sort();
     out
 }
+
+/// structured values for an *intermediate* quantity: zero low limb(s), all-ones low limb, 2-adic relations
+/// with the modulus (routines that work on limbs of an intermediate meet their special cases there)
+pub fn intermediate_targets(p: &B) -> Vec<B> {
+    let mut t: Vec<B> = crate::zoo::two_adic_relations(p);
+    for k in 1u64..=24 {
+        for sh in [64usize, 128, 192] {
+            let v = b(k.wrapping_mul(0x9E37_79B9) | 1) << sh;
+            if &v < p {
+                t.push(v.clone());
+                t.push(&v - b(1));
+                t.push(p - &v);
+            }
+        }
+    }
+    t
+}
+
+/// non-negative s for which an intermediate of the decoder (u1 = 1 - s^2, u2 = u1^2 - 4 d s^2) equals a target
+pub fn decode_s_for_intermediates(ctx: &Ctx, rng: &mut impl RngCore) -> Vec<B> {
+    let c = &ctx.c;
+    let f = &c.f;
+    let mut out = Vec::new();
+    let two_plus_4d = f.add(&b(2), &f.mul(&b(4), &c.d));
+    for tg in intermediate_targets(&f.p) {
+        // u1 = T  =>  t = 1 - T
+        let mut ts: Vec<B> = vec![f.sub(&b(1), &tg)];
+        // u2 = T  =>  t^2 - (2 + 4d) t + (1 - T) = 0
+        let quad: Poly = vec![f.sub(&b(1), &tg), f.neg(&two_plus_4d), b(1)];
+        ts.extend(roots(f, &quad, rng));
+        for t in ts {
+            if let Some(s) = f.sqrt(&t) {
+                out.push(f.abs(&s));
+            }
+        }
+    }
+    out.sort();
+    out.dedup();
+    out
+}
+
+/// y coordinates (as field elements) for which an intermediate of "build the curve point with this y and
+/// test it" equals a target: 1 - y^2, a - d y^2, x^2 = (1 - y^2)/(a - d y^2), 1 - d x^2, 1 + x^2
+pub fn y_for_intermediates(ctx: &Ctx) -> Vec<B> {
+    let c = &ctx.c;
+    let f = &c.f;
+    let (a, d) = (&c.a, &c.d);
+    let mut out = Vec::new();
+    for tg in intermediate_targets(&f.p) {
+        let mut y2s: Vec<B> = Vec::new();
+        y2s.push(f.sub(&b(1), &tg));                                   // 1 - y^2 = T
+        if let Some(v) = f.div(&f.sub(a, &tg), d) { y2s.push(v); }     // a - d y^2 = T
+        // x^2 = X  =>  y^2 = (1 - a X)/(1 - d X)   (from a x^2 + y^2 = 1 + d x^2 y^2)
+        let from_x2 = |x2: &B| -> Option<B> { f.div(&f.sub(&b(1), &f.mul(a, x2)), &f.sub(&b(1), &f.mul(d, x2))) };
+        if let Some(v) = from_x2(&tg) { y2s.push(v); }                  // x^2 = T
+        if let Some(x2) = f.div(&f.sub(&b(1), &tg), d) { if let Some(v) = from_x2(&x2) { y2s.push(v); } } // 1 - d x^2 = T
+        if let Some(v) = from_x2(&f.sub(&tg, &b(1))) { y2s.push(v); }    // 1 + x^2 = T
+        for y2 in y2s {
+            if let Some(y) = f.sqrt(&y2) {
+                out.push(y.clone());
+                out.push(f.neg(&y));
+            }
+        }
+    }
+    out.sort();
+    out.dedup();
+    out
+}
